@@ -52,6 +52,16 @@ def witness_cases():
                                     {"op": "race", "ds": "a", "ents": [sc.with_id("e1", B)], "second": [sc.with_id("e1", C)],
                                      "pause_at": "lock.wait", "reader": "rx", "limit": 0}] + race_fin},
     ]
+    D = {"deleted": True, "props": {"p1": "a"}, "refs": {}}
+    races.append({"datasets": ["a"], "ops": [{"op": "batch", "ds": "a", "ents": [sc.with_id("e1", A), sc.with_id("e2", D)]},
+                                             {"op": "race", "ds": "a", "ents": [sc.with_id("e1", A), sc.with_id("e2", D)],
+                                              "second": [sc.with_id("e1", B), sc.with_id("e2", A)],
+                                              "pause_at": "lock.wait", "reader": "rx", "limit": 0}] + race_fin})
+    # a refused batch (nil reference in its last entity) leaves no trace: the retry is stored in full
+    retry = [sc.with_id("e1", B), sc.with_id("e2", A), sc.with_id("e3", D)]
+    races.append({"datasets": ["a"], "ops": [{"op": "batch", "ds": "a", "ents": [sc.with_id("e1", A), sc.with_id("e3", A)]},
+                                             {"op": "batch", "ds": "a", "ents": retry, "reject": True}] + race_fin
+                  + [{"op": "batch", "ds": "a", "ents": retry}] + race_fin + [{"op": "seqs", "ds": "a"}]})
     many = [sc.with_id("e%d" % i, {"props": {"p1": i % 3}, "refs": {}}) for i in list(range(1, 24)) + [5, 5, 12]]
     http = {"datasets": ["a"], "ops": [
         # the same feed through the real HTTP handlers: POST cut into batches of 10, GET changes forward / latest-only / reverse
@@ -69,6 +79,9 @@ def witness_cases():
                                     {"op": "batch", "ds": "a", "ents": [sc.with_id("e1", B), sc.with_id("e1", B)]}] + fin},
         # F02b: nested entity re-posted three times
         {"datasets": ["a"], "ops": [{"op": "batch", "ds": "a", "ents": [sc.with_id("e1", nested)]}] * 3 + fin},
+        # two tombstones differing in one reference target only: two versions
+        {"datasets": ["a"], "ops": [{"op": "batch", "ds": "a", "ents": [sc.with_id("e1", sc.TOMBPAIR[0])]},
+                                    {"op": "batch", "ds": "a", "ents": [sc.with_id("e1", sc.TOMBPAIR[1]), sc.with_id("e1", sc.TOMBPAIR[0])]}] + fin},
         # F01a: un-delete with a 15-byte property
         {"datasets": ["a"], "ops": [{"op": "batch", "ds": "a", "ents": [sc.with_id("e1", old)]},
                                     {"op": "batch", "ds": "a", "ents": [sc.with_id("e1", new)]}] + fin},
@@ -82,7 +95,7 @@ def corpus_cases():
 def gen_case(rng, nw, rich=True):
     nds = rng.choice([1, 1, 2])
     pool = sc.IDS[:rng.choice([2, 3, 5])]
-    writes = sc.gen_writes(rng, nds, nw, pool, rich)
+    writes = sc.gen_writes(rng, nds, nw, pool, rich, reject=True)
     ops = []
     readers = [("r1", rng.choice([1, 2, 3]), False), ("r2", rng.choice([1, 2, 0]), rng.chance(1, 2))]
     memo = {}
@@ -118,6 +131,7 @@ def gen_case(rng, nw, rich=True):
         lim = rng.choice([1, 2, 3])
         for _ in range(4):
             ops.append({"op": "changes_rev", "ds": d, "reader": "rr", "limit": lim})
+        ops.append({"op": "seqs", "ds": d})     # the sequence numbers really present (see storecases.rank_maps)
     return {"datasets": sc.DS_NAMES[:nds], "ops": ops}
 
 
